@@ -21,7 +21,7 @@ _STUB = ["/verif/shadow/lxml (symdom)", "h_typed.SDate/SDateTime/SDuration: reco
 
 OBLIGATIONS = []
 for _k in ("date", "datetime", "timedelta"):
-    for _fn in ("cell_temporal", "meta_temporal"):
+    for _fn in ("cell_temporal", "meta_temporal", "meta_overwrite"):
         OBLIGATIONS.append(Obl(name=f"{_fn}_{_k}", module="h_typed", func=_fn, shadow=True, timeout=120, env={"VERIF_KIND": _k}, extra={"kind": _k},
                                replay="r_h_typed:" + _fn, weight=4,
                                bounds=f"value of type {_k}; encoded string a + ('T' if dateTime) + b with a, b arbitrary strings of <= 1 character (no 'T' for a date)",
